@@ -280,7 +280,7 @@ theorem tg_group4 (r : C_librdsparser) (hI : CInv r) (g : Group) (hg : g.Bounded
     have hmjd : c_rdsparser_group4a_get_mjd (dataOf g) = (((ctFields g).1 : Nat) : Int) :=
       TransBits.group4a_get_mjd _ _ _ _ hc
     have hhour : i8 (c_rdsparser_group4a_get_hour (dataOf g)) = (((ctFields g).2.1 : Nat) : Int) := by
-      unfold dataOf; rw [TransBits.group4a_get_hour]
+      unfold dataOf; rw [TransBits.group4a_get_hour _ _ _ _ hd]
       apply i8_of_range <;> omega
     have hmin : i8 (c_rdsparser_group4a_get_minute (dataOf g)) = (((ctFields g).2.2.1 : Nat) : Int) := by
       unfold dataOf; rw [TransBits.group4a_get_minute]
